@@ -79,7 +79,7 @@ def ser_det(d):
     if isinstance(d, SigmaDetection):
         return {"items": [ser_det(x) for x in d.detection_items], "and": d.item_linking is ConditionAND}
     return {"f": d.field, "vs": [ser_value(v) for v in d.value], "all": d.value_linking is ConditionAND,
-            "neg": bool(d.negated)}
+            "neg": bool(d.negated), "ap": sorted(d.applied_processing_items)}
 
 
 def ser_rule(rule):
